@@ -82,7 +82,7 @@ def coords_of(ev, why):
 
 STD_NODES = {"xyz": NODES["xyz"], "lab": NODES["lab"], "xyz50": [(0, 0.96422), (0, 1), (0, 0.82521)], "lab50": NODES["lab"],
              "lch50": NODES["lch"], "luv50": NODES["luv"], "xyzdci": [(0, 0.89459), (0, 1), (0, 0.95442)], "labdci": NODES["lab"]}
-for _n in ("srgb", "linsrgb", "adobe", "linadobe", "p3", "linp3", "rec2020", "linrec2020", "rec709", "prophoto", "linprophoto", "dcip3", "lindcip3"):
+for _n in ("srgb", "linsrgb", "adobe", "linadobe", "p3", "linp3", "rec2020", "linrec2020", "rec709", "prophoto", "linprophoto", "dcip3", "lindcip3", "dcip3plus", "lindcip3plus"):
     STD_NODES[_n] = NODES["srgb"]
 for _n in ("hsv_adobe", "hsl_p3", "hwb_rec2020", "hsv_prophoto", "hsv", "hsl", "hwb", "hsv_linsrgb", "hsl_linsrgb", "hwb_rec709"):
     STD_NODES[_n] = NODES["hsv"]
